@@ -254,6 +254,9 @@ func (t *KernMethod) UnLockGovernTokens(ctx contract.KContext) (*contract.Respon
 	if lockType != utils.GovernTokenTypeOrdinary && lockType != utils.GovernTokenTypeTDPOS {
 		return nil, fmt.Errorf("unlock gov tokens failed, lock_type invalid: %s", lockType)
 	}
+	if amountLock.Sign() < 0 || accountBalance.LockedBalance[lockType].Cmp(amountLock) < 0 {
+		return nil, fmt.Errorf("unlock gov tokens failed, account locked balance insufficient")
+	}
 	accountBalance.LockedBalance[lockType] = accountBalance.LockedBalance[lockType].Sub(accountBalance.LockedBalance[lockType], amountLock)
 
 	// 更新account余额
